@@ -43,7 +43,7 @@ class Coordinate1D:
         return Coordinate1D(self.value * other)
 
     def __rmul__(self, other):
-        return self.__imul__(other)
+        return self.__mul__(other)
 
     def __imul__(self, other):
         self.value *= other
@@ -87,7 +87,7 @@ class CoordinateND:
         return CoordinateND((v * other for v in self.value))
 
     def __rmul__(self, other):
-        return self.__imul__(other)
+        return self.__mul__(other)
 
     def __imul__(self, other):
         self.value = tuple(val * other for val in self.value)
